@@ -27,6 +27,8 @@
 #include <Spectra/contrib/PartialSVDSolver.h>
 #include <Eigen/SVD>
 #include <unistd.h>
+#include <csignal>
+#include <cstdio>
 #include <fcntl.h>
 #include <sys/wait.h>
 #if defined(__SANITIZE_ADDRESS__)
@@ -72,8 +74,12 @@ struct SpectraVerifAccess {
 // ------------------------------------------------------------------ probe shared by all wrappers of one case
 struct Probe {
     long calls = 0; long n = 0; std::string bad;
+    long limit = 0;   // runaway guard: far beyond the property's work bound the case is stopped (a loop that never ends must not hang the search)
     template <class T> void check(const T* x, T* y) {
         calls++;
+        if (limit > 0 && calls > limit) {
+            fprintf(stderr, "RUNAWAY: operator applied %ld times, more than 8x the work bound 2+2*ncv*(maxit+1): the run was stopped\n", calls); fflush(stderr); _exit(97);
+        }
         if (!bad.empty()) return;
         if ((const void*) x == (const void*) y) { bad = "x == y"; return; }
         if (x == nullptr || y == nullptr) { bad = "null pointer"; return; }
@@ -198,7 +204,7 @@ template <class Solver, class SV> static void drive(Solver& s, const Case& c, co
 static std::ostream* g_trace = nullptr;   // --replay diagnosis of GenEigsSolver cases
 static Res run_case(const Case& c, uint64_t seed) {
     Res r; Rng rng(seed, 41, c.idx);
-    Probe pr; pr.n = c.n;
+    Probe pr; pr.n = c.n; pr.limit = 8 * (2 + 2L * c.ncv * (c.maxit + 1)) + 64;
     bool sym = is_sym_class(c.cls) || c.cls == 2;
     Mat A = make_matrix(c, rng, sym && c.cls != 2);
     Vec v0 = make_v0(c, rng, A); const Vec* pv0 = c.v0 == 5 ? nullptr : &v0;
@@ -340,9 +346,11 @@ int main(int argc, char** argv) {
             std::ofstream rs(resf, std::ios::app);
             for (size_t i = pos; i < hi; i++) {
                 { std::ofstream lc(lastf, std::ios::trunc); lc << i << "\n" << cjson(cases[i]) << "\n"; }
+                alarm(120);   // watchdog: a single case takes milliseconds; one that is still running after two minutes does not terminate
                 Res r = run_case(cases[i], cases[i].seedov >= 0 ? (uint64_t) cases[i].seedov : a.seed);
                 rs << i << "\t" << r.status << "\t" << r.sig << "\t" << jesc(r.what) << "\t" << r.calls << "\n"; rs.flush();
             }
+            alarm(0);
             _exit(0);
         }
         int st = 0; waitpid(pid, &st, 0);
@@ -366,10 +374,12 @@ int main(int argc, char** argv) {
             std::ifstream ef(errf); std::string et((std::istreambuf_iterator<char>(ef)), {});
             std::string key = "crash";
             size_t p;
-            if ((p = et.find("Assertion")) != std::string::npos) key = et.substr(p, std::min<size_t>(260, et.find('\n', p) - p));
+            if (WIFSIGNALED(st) && WTERMSIG(st) == SIGALRM) key = "WATCHDOG: the case was still running after 120 s (no termination within the work bound)";
+            else if ((p = et.find("RUNAWAY")) != std::string::npos) key = et.substr(p, std::min<size_t>(260, et.find('\n', p) - p));
+            else if ((p = et.find("Assertion")) != std::string::npos) key = et.substr(p, std::min<size_t>(260, et.find('\n', p) - p));
             else if ((p = et.find("ERROR: AddressSanitizer")) != std::string::npos) key = et.substr(p, std::min<size_t>(200, et.find('\n', p) - p));
             else if ((p = et.find("runtime error:")) != std::string::npos) key = et.substr(p, std::min<size_t>(200, et.find('\n', p) - p));
-            std::string sig = key.find("Assertion") == 0 ? "assertion" : (key.find("ERROR: AddressSanitizer") == 0 ? "asan" : (key.find("runtime error") == 0 ? "ubsan" : "crash"));
+            std::string sig = (key.find("RUNAWAY") == 0 || key.find("WATCHDOG") == 0) ? "work-bound-runaway" : key.find("Assertion") == 0 ? "assertion" : (key.find("ERROR: AddressSanitizer") == 0 ? "asan" : (key.find("runtime error") == 0 ? "ubsan" : "crash"));
             std::string rj = cjson(c); rj.insert(rj.size() - 1, ",\"seed\":" + str(c.seedov >= 0 ? (uint64_t) c.seedov : a.seed));
             if (is_gen_class(c.cls)) {
                 // diagnosis: replica of compute's loop that prints the Ritz pattern before each restart (crashes at the same place)
